@@ -139,7 +139,81 @@ def candidates(case):
         yield c
 
 
+# ---- dense time: sign soundness ------------------------------------------------
+
+import math                                                        # noqa: E402
+from fractions import Fraction                                     # noqa: E402
+from ..dense import DENSE, DENSE_PAST, ct_cases, case_q, to_time, norm_signals, dense_text, check_shape, ct_candidates   # noqa: E402
+from ..monitors import run_ct_off, run_ct_on                       # noqa: E402
+from ..refsem import bool_ct                                       # noqa: E402
+
+DBOOL = dict(bin_bool=('and', 'or', 'implies'), bare_operand=False, temporal_in_arith=False,
+             un_arith=('abs', 'neg'), bin_arith=('+', '-', '*'))
+
+
+@st.composite
+def dense_cases(draw, tier, kind):
+    p = (DENSE if kind == 'ct_off' else DENSE_PAST).copy(**DBOOL)
+    if tier == 'thorough':
+        p = p.copy(max_depth=4)
+    c = draw(ct_cases(p, tier, max_samples=6))
+    c['kind'] = kind
+    return c
+
+
+def check_dense(case):
+    f = from_json(case['formula'])
+    kind = case['kind']
+    vs = list(case['vars'])
+    q = case_q(case)
+    sig = norm_signals(case)
+    used = F.fvars(f)
+    labels = ['kind:' + kind] + feature_labels(f)
+    if not used:
+        return DISCARD('no-variable', labels)
+    sig = {v: sig[v] for v in vs if v in used}
+    feed = list(sig)
+    try:
+        K0, Kend, sat = bool_ct(f, sig)
+    except (Undefined, NotNumeric):
+        return DISCARD('undefined', labels)
+    text = dense_text(f, q)
+    if kind == 'ct_off':
+        o = run_ct_off(text, feed, to_time(sig, q))
+        out = o[1] if o[0] == 'ok' else None
+    else:
+        o = run_ct_on(text, feed, [to_time(sig, q)])
+        out = o[1][0] if o[0] == 'ok' else None
+    if o[0] != 'ok' or check_shape(out) or not out:
+        return DISCARD('exception-or-shape(C04/C05/C17)', labels)
+    desc = 'spec: %s   [%s]\nsignals: %s\nresult: %r' % (text, kind, to_time(sig, q), out)
+    hi = min(float(Kend * q), out[-1][0])
+    k2 = 0
+    finite = False
+    while float(Fraction(k2, 2) * q) <= hi:
+        t = float(Fraction(k2, 2) * q)
+        if t >= out[0][0] and t >= float(K0 * q):
+            rho = step_at(out, t)
+            cell = int(math.floor(Fraction(k2, 2))) - K0
+            b = sat[cell]
+            if rho is not None and rho == rho:
+                if 0 < abs(rho) < float('inf'):
+                    finite = True
+                if rho > 0 and b is not True:
+                    return FAIL('sign:positive-but-violated:' + kind, desc + '\nat t=%g rho=%r but the Boolean semantics says %r' % (t, rho, b), labels)
+                if rho < 0 and b is not False:
+                    return FAIL('sign:negative-but-satisfied:' + kind, desc + '\nat t=%g rho=%r but the Boolean semantics says %r' % (t, rho, b), labels)
+            elif rho is not None:
+                return FAIL('nan', desc + '\nNaN in the result', labels)
+        k2 += 1
+    return PASS(finite and struct_nontrivial(f), labels)
+
+
+from ..refsem import step_at                                       # noqa: E402
+
 LANES = [
+    Lane('sign_ct_off', lambda tier: dense_cases(tier, 'ct_off'), check_dense, 2500, 40000, ct_candidates),
+    Lane('sign_ct_on', lambda tier: dense_cases(tier, 'ct_on'), check_dense, 1500, 20000, ct_candidates),
     Lane('sign_dt_off', lambda tier: cases(tier, 'dt_off', False), check, 4000, 60000, candidates),
     Lane('sign_dt_on', lambda tier: cases(tier, 'dt_on', False), check, 2500, 40000, candidates),
     Lane('lip_dt_off', lambda tier: cases(tier, 'dt_off', True), check, 3000, 50000, candidates),
